@@ -75,17 +75,13 @@ def encode(obj: Any) -> Any:
     (see the docs for singledispatch).
     """
     try:
-        if is_dataclass(obj):
-            # logger.debug(f"encoding object {obj} of class {type(obj)}")
-            d: dict[str, Any] = dict()
-            for field in fields(obj):
-                value = getattr(obj, field.name)
-                try:
-                    d[field.name] = encode(value)
-                except TypeError as e:
-                    logger.error(f"Unable to encode field {field.name}: {e}")
-                    raise e
-            return d
+        if is_dataclass(obj) and not isinstance(obj, type):
+            # A dataclass instance that doesn't inherit from `Serializable` (e.g. an item of a list
+            # or dict field): encode it like `to_dict` does for fields, so that the per-field
+            # options (`to_dict=False`, `encoding_fn`) are honoured here too.
+            from .serializable import to_dict
+
+            return to_dict(obj)
         else:
             # logger.debug(f"Deepcopying object {obj} of type {type(obj)}")
             return copy.deepcopy(obj)
